@@ -1,6 +1,7 @@
 import Tv.Handlers.C01
 import Tv.Handlers.C02
 import Tv.Handlers.Cross
+import Tv.Handlers.C04
 import Tv.Handlers.C16
 import Tv.Handlers.C15
 import Tv.Handlers.C11
@@ -18,7 +19,7 @@ import Tv.Handlers.C07
 open Tv Tv.Proto Tv.Handlers
 
 /-- per-function handlers -/
-def baseHandlers : List Handler := [c01, c02, c10, c07, c19, c14, c03, c09, c13, c12, c17, c18, c20, c11, c15, c16]
+def baseHandlers : List Handler := [c01, c02, c10, c07, c19, c14, c03, c09, c13, c12, c17, c18, c20, c11, c15, c16, c04]
 
 def handlers : List Handler := baseHandlers ++ [c06 baseHandlers]
 
